@@ -249,3 +249,27 @@ impl ValuelessProof {
                 && r.block->Some_0.value == block_value->Some_0
     { unimplemented!() }
 }
+
+impl MerkleTree {
+    // ASSUMED here; to be proved in unit merkle
+    #[verifier::external_body]
+    pub fn open(header_tree: &HeaderTree, infos: Option<&[StoreInfo]>) -> (r: Result<Either<Box<[StoreInfoInstruction]>, MerkleTree>, HypercoreError>)
+        ensures
+            r is Ok && r->Ok_0 is Left ==> tree_instr(r->Ok_0->Left_0@),
+            r is Ok && r->Ok_0 is Right ==> r->Ok_0->Right_0.fork == header_tree.fork && !r->Ok_0->Right_0.truncated
+                && r->Ok_0->Right_0.truncate_to == 0 && r->Ok_0->Right_0.unflushed@ == Map::<u64, Node>::empty()
+    { unimplemented!() }
+    #[verifier::external_body]
+    pub fn truncate(&mut self, length: u64, fork: u64, infos: Option<&[StoreInfo]>)
+        -> (r: Result<Either<Box<[StoreInfoInstruction]>, MerkleTreeChangeset>, HypercoreError>)
+        ensures *final(self) == *old(self),
+            r is Ok && r->Ok_0 is Left ==> r->Ok_0->Left_0@.len() > 0 && tree_instr(r->Ok_0->Left_0@),
+            r is Ok && r->Ok_0 is Right ==> r->Ok_0->Right_0.upgraded && r->Ok_0->Right_0.length == length && r->Ok_0->Right_0.fork == fork
+                && r->Ok_0->Right_0.ancestors == length && r->Ok_0->Right_0.nodes@.len() == 0
+                && r->Ok_0->Right_0.original_tree_length == old(self).length && r->Ok_0->Right_0.original_tree_fork == old(self).fork
+    { unimplemented!() }
+}
+impl MerkleTreeChangeset {
+    #[verifier::external_body]
+    pub fn hash(&self) -> (r: Box<[u8]>) ensures r@.len() == 32 { unimplemented!() }
+}
